@@ -357,6 +357,27 @@ impl AtomicU32 {
     }
 }
 
+impl Default for AtomicU32 {
+    #[inline]
+    fn default() -> Self {
+        Self::new(0)
+    }
+}
+
+impl From<u32> for AtomicU32 {
+    #[inline]
+    fn from(v: u32) -> Self {
+        Self::new(v)
+    }
+}
+
+impl core::fmt::Debug for AtomicU32 {
+    fn fmt(&self, f: &mut core::fmt::Formatter<'_>) -> core::fmt::Result {
+        // never a yield point
+        core::fmt::Debug::fmt(&self.inner.load(Ordering::Relaxed), f)
+    }
+}
+
 /// `rusl::futex::futex_wait` on a shim atomic, offered to the hook first.
 /// # Errors
 /// See `rusl::futex::futex_wait`
